@@ -20,6 +20,8 @@ func init() {
 		Trusted: []string{"go/types", "go/ssa"},
 		Run: func(c *Ctx) {
 			runC17(c)
+			runToStrCases(c, "C17-PATHKEY")
+			base(c, "DECLARED", "STATE", "ALIAS", "LOOP", "TEXT", "MAT")
 			importRules(c, "C12", runC12Input, "C17-OWNVALUE", "each group member keeps the value of its own field/entry until the groups are evaluated at the end of the call: no reflect.Value setter refreshes a shared storage cell per entry (rule C12-INPUT)", 1, nil)
 		},
 	})
